@@ -192,7 +192,7 @@ fn one(case: &Case, front: Front, ev: &mut Ev, decode_cov: bool) {
     if st.hits > 0 {
         ev.count("hook:builds-with-cache-hits");
     }
-    let small = case.kv.len() <= 64;
+    let small = case.kv.len() <= 64 && case.family != "huge-delta";
     let fp = crate::rng::fnv_add(case.fp(), name.as_bytes());
     ev.eval(if case.kv.is_empty() { None } else { Some(fp) });
     match guard(|| check_enumeration(&bytes, &case.kv, small, case.index)) {
